@@ -62,6 +62,7 @@ class ProbeMech(chi.MechanisticModel):
         self._outputs = list(self._all_outputs)
         self._names = ['P%d' % (k + 1) for k in range(self._np)]
         self._sens = False
+        self._sens_names = None
         self.tag = tag
 
     # identity survives deep copies
@@ -70,6 +71,7 @@ class ProbeMech(chi.MechanisticModel):
 
     def enable_sensitivities(self, enabled, parameter_names=None):
         self._sens = bool(enabled)
+        self._sens_names = None if parameter_names is None else [str(n) for n in parameter_names]
         log_of(self.tag).append(('sens', bool(enabled)))
 
     def has_sensitivities(self):
@@ -112,6 +114,9 @@ class ProbeMech(chi.MechanisticModel):
         s = np.zeros((len(times_in), len(idx), self._np))
         for j, o in enumerate(idx):
             s[:, j, :] = probe_sens(o, times_in, psi)
+        if self._sens_names is not None:
+            cols = [k for k, n in enumerate(self._names) if n in self._sens_names]
+            s = s[:, :, cols]
         return out, s
 
 
